@@ -867,7 +867,7 @@ def gen_cases(ctx):
     quick = ctx.quick()
     cases = []
     # prf+: every output length 0..400 (+ around the 255-block limit) for each PRF
-    lens = list(range(0, 401)) if not quick else sorted(set(list(range(0, 70)) + rng.sample(range(70, 401), 60)))
+    lens = list(range(0, 401)) if not quick else sorted(set(list(range(0, 50)) + rng.sample(range(50, 401), 45)))
     for p in PRF_IDS:
         hl = {2: 20, 5: 32, 7: 64}[p]
         extra = [255 * hl - 1, 255 * hl, 255 * hl + 1, 255 * hl + hl] if (p == 2 or not quick) else [255 * hl + 1]
@@ -1167,7 +1167,7 @@ def correspond(ctx):
                              f'{kind}{a!r}: implementation {cases[gi][1]!r} but model {model_out[-600:]}',
                              {'kind': 'correspondence', 'case': repr(cases[gi][0])}))
     # the closed theorems must print no assumptions at all (the axiom whitelist is meant for C04_primes.v only)
-    if rc != 0 or 'Axioms:' in out or out.count('Closed under the global context') < 14:
+    if rc != 0 or 'Axioms:' in out or out.count('Closed under the global context') < 15:
         fails.append(Failure('proof', 'proof:closedness', 'a theorem of Props/C04.v is not closed under the global '
                              'context: ' + out[-400:], {'kind': 'closedness'}))
     return fails
@@ -1570,7 +1570,7 @@ CHECK = core.Check(
     'C04', CLUSTER, ['Props/C04.v', 'Props/C04_primes.v'], translate=translate, correspond=correspond, oracle=oracle,
     replay=replay, deps=('lib',), allowed_axioms=ALLOWED_AXIOMS,
     rule='correspondence (toy prf patched into crypto.Prf.prf, sizes from the real classes): prf+ for every output '
-         'length 0..400 (quick: 0..69 plus a seeded sample) and around the 255-block limit for the 3 PRFs; '
+         'length 0..400 (quick: 0..49 plus a seeded sample) and around the 255-block limit for the 3 PRFs; '
          'generate_ike_sa_key_material for 3 PRF x 3 INTEG x 2 AES key lengths x initial/rekey with random nonces of '
          '16..256 octets, 8-octet SPIs and secrets with 0..5 leading zero octets; generate_child_sa_key_material for '
          '3 PRF x 3 INTEG x (ESP-128, ESP-256, AH) x with/without DH secret; unsupported ids and KEY_LEN values; the '
@@ -1586,7 +1586,7 @@ CHECK = core.Check(
         'coq-interval tactic and, through it, the standard-library axioms printed for C04_modp_primes only: '
         'ClassicalDedekindReals.sig_forall_dec, ClassicalDedekindReals.sig_not_dec, Classical_Prop.classic, '
         'FunctionalExtensionality.functional_extensionality_dep, the PrimInt63 primitive integer type and operations '
-        'and their Uint63.*_spec / of_to_Z / eqb_refl / eqb_correct axioms; the 14 theorems of Props/C04.v are closed '
+        'and their Uint63.*_spec / of_to_Z / eqb_refl / eqb_correct axioms; the 15 theorems of Props/C04.v are closed '
         'under the global context (re-checked on every run)',
         'translator py/props/c04.py (tables, size expressions, prf+ loop constants and block expression, SKEYSEED / '
         'prf+ seed / length expressions, unpack formats, Keyring and Crypto field wiring, role conditionals, call-site '
